@@ -12,8 +12,11 @@ var _ = strings.Join
 func round12(c *Ctx, r *Report, p string) {
 	switch p {
 	case "C01":
+		packSizeRefusalExact(c, r, "C01.R2.pack-size-refusal-exact")
+		optionBodyWhole(c, r, "C01.R4.option-body-whole")
 		borrow(c, r, c04R4b, "C04.R4.accessors", "C01.R2.compression-keys-exact", 3, "the compression map is indexed with the name as given: a pointer is written only to an earlier name with the same octets", nil, "a name is packed as a pointer to an earlier name that differs from it in the case of a letter and reads back with that other name's spelling")
 	case "C03":
+		specialOctetsPrintable(c, r, "C03.R3.special-printable")
 		borrow(c, r, c04R4b, "C04.R4.accessors", "C03.R4.compression-keys-exact", 3, "the compression map is indexed with the name as given", nil, "a name no longer reads back with the octets it was packed from: the pointer leads to a name spelled in another case")
 	case "C08":
 		insertAlwaysStores(c, r, "C08.R4.insert-always-stores")
@@ -27,6 +30,7 @@ func round12(c *Ctx, r *Report, p string) {
 	case "C17":
 		iterationsOnlyHashed(c, r, "C17.R4.iterations-only-hashed")
 	case "C05":
+		signKeptInSplitNumber(c, r, "C05.R3.sign-kept-in-split-number")
 		formatsInUTC(c, r, "C05.R3.formats-in-utc")
 	case "C11":
 		tsigVerifiedWhenPresent(c, r, "C11.R1.verified-when-present")
